@@ -46,7 +46,7 @@ SPEC = {
     "abs_tr": lambda n, d: [abs(trem(n, d))], "abs_cr": lambda n, d: [abs(crem(n, d))],
     "tq_w": lambda n, d: [tquo(n, d), abs(trem(n, d))], "tr_w": lambda n, d: [trem(n, d), abs(trem(n, d))],
     "cr_w": lambda n, d: [crem(n, d), abs(crem(n, d))], "fr_w": lambda n, d: [frem(n, d), frem(n, d)],
-    "isdiv": lambda n, d: [1 if emod(n, d) == 0 else 0],
+    "isdiv": lambda n, d: [1 if (n == 0 if d == 0 else n % d == 0) else 0],     # b = 0 divides only 0
 }
 
 # form -> (spec kind, type of n, type of d, type of a word result or None)
@@ -109,6 +109,8 @@ SITES = {
 }
 
 def site_of(f, n, d):
+    if d == 0:
+        return "IntegerDom::" + f[4:], "d=0"
     if f in SITES:
         s, k = SITES[f]
         return s, k(n, d)
@@ -213,6 +215,7 @@ DIRECTED = [
     ("div.l", 10**30, -2**63), ("divin.l", -10**30, -2**63), ("op/.l", 2**63, -2**63), ("op/=.l", -2**63, -2**63), ("div.i", -2**31, -2**31),
     ("mod.l", 10**30, -2**63), ("modin.l", -10**30, -2**63), ("mod.l", -1, -2**63), ("mod.i", -1, -2**31),
     ("divexact.l", 2**126, -2**63), ("divexact.ql", -2**126, -2**63),
+    ("dom.isDivisor", 0, 0), ("dom.isDivisor", 5, 0), ("dom.isDivisor", -5, 0), ("dom.isDivisor", 2**64, 0),   # the one form defined for d = 0
 ]
 
 
@@ -278,10 +281,22 @@ def main(tier, replay=None):
     if not cases:
         for f, n, d in DIRECTED:
             cases.append((f, n, d, "directed"))
-        per = 260 if tier == "quick" else 12000
+        per = 260 if tier == "quick" else 50000
         N, D = (7, 3) if tier == "quick" else (48, 13)
         for f in sorted(F):
             kind, nt, dt, ret = F[f]
+            # the limits of the divisor's (dividend's) word type against dividends (divisors) around its multiples, swept completely
+            if dt != "Z" or nt != "Z":
+                t = dt if dt != "Z" else nt
+                lo, hi = RANGES[t]
+                ws = sorted({w for w in (lo, lo + 1, hi, hi - 1, 1, -1, 2**63, 2**31, 2**32 - 1, -2**31, 2**15) if w != 0 and lo <= w <= hi})
+                for w in ws:
+                    a = abs(w)
+                    for o in (0, a - 1, a, a + 1, 2 * a - 1, 2 * a, 3 * a + a // 2, 10**30, 10**30 - (10**30 % a), 2**64 * a + 1):
+                        for sg in (1, -1):
+                            n, d = (sg * o, w) if dt != "Z" else (w, sg * o)
+                            if d != 0 and clampfit(n, nt) and clampfit(d, dt) and (kind != "exact" or n % d == 0):
+                                cases.append((f, n, d, "word-limit grid (exhaustive)"))
             # a small box swept completely for every form (independent of the seed): n in [-N, N], d in [-D, D] \ {0}
             if not f.startswith("gmp.") or tier != "quick":
                 for n in range(-N, N + 1):
@@ -294,60 +309,64 @@ def main(tier, replay=None):
                 cases.append((f, n, d, cl))
     for f, n, d, cl in cases:
         kind, nt, dt, ret = F[f]
-        assert d != 0 and clampfit(n, nt) and clampfit(d, dt), (f, n, d)
-    impl_in = "".join("%s %d %d\n" % (f, n, d) for f, n, d, cl in cases)
-    lines = impl_in.splitlines(True)
-    iout, crashed, start = [], {}, 0
-    while start < len(lines):          # a crash inside the library is a result too: locate the case, record it, go on
-        rc, o, ierr = vf.run_lines(himpl, "".join(lines[start:]), timeout=1500)
-        iout += o
-        if len(iout) >= len(lines):
-            break
-        if rc == 0 or len(crashed) >= 25:
-            chk.broke("implementation harness failed (rc=%s, %d/%d lines)" % (rc, len(iout), len(cases)), ierr)
-            return chk.finish()
-        crashed[len(iout)] = rc
-        iout.append("CRASH(rc=%s)" % rc)
-        start = len(iout)
-    iout = iout[:len(lines)]
-    mout = None
-    if drv:
-        rc, mout, merr = vf.run_lines(drv, impl_in, timeout=1500)
-        if rc != 0 or len(mout) != len(cases):
-            chk.broke("model driver failed (rc=%s, %d/%d lines)" % (rc, len(mout), len(cases)), merr)
-            mout = None
-    # 4. comparison: implementation vs oracle decides violations; implementation vs extracted model is the tie
+        assert (d != 0 or kind == "isdiv") and clampfit(n, nt) and clampfit(d, dt), (f, n, d)
+    all_cases = cases
     ncorr = 0
     nunspec = 0
     dist_form, dist_class, dist_sign = {}, {}, {}
-    for i, (f, n, d, cl) in enumerate(cases):
-        kind, nt, dt, ret = F[f]
-        exp = SPEC[kind](n, d)
-        specified = True
-        if ret is not None and not fits(exp[0], ret):
-            specified = False          # the mathematical remainder is not representable in the return type
-            nunspec += 1
-        got = norm(iout[i])
-        exps = [str(x) for x in exp]
-        dist_form[f] = dist_form.get(f, 0) + 1
-        dist_class[cl] = dist_class.get(cl, 0) + 1
-        sg = "n%s,d%s" % ("<0" if n < 0 else ("=0" if n == 0 else ">0"), "<0" if d < 0 else ">0")
-        dist_sign[sg] = dist_sign.get(sg, 0) + 1
-        chk.count((f, n, d), nontrivial=(n != 0 and abs(d) != 1 and n % d != 0) or (kind in ("exact",) and abs(d) != 1 and n != 0))
-        if i % 1499 == 0 or (cl == "directed" and i % 7 == 0):
-            chk.sample({"form": f, "n": str(n), "d": str(d), "class": cl, "impl": iout[i], "spec": exps if specified else "unspecified (not representable)"}, limit=16)
-        site, klass = site_of(f, n, d)
-        if specified and got != exps:
-            chk.fail_input(site, klass, {"form": f, "n": str(n), "d": str(d)}, exps, iout[i],
-                           "implementation differs from the documented convention (%s)" % kind)
-            continue                   # a failing input is reported once, not again as a correspondence break
-        if mout is not None:
-            ncorr += 1
-            mg = norm(mout[i])
-            if mg != got:
-                chk.broke("correspondence model/implementation differs on %s n=%d d=%d: model=%s impl=%s" % (f, n, d, mout[i], iout[i]))
-            elif specified and mg != exps:
-                chk.broke("extracted model differs from the specification oracle on %s n=%d d=%d: model=%s spec=%s" % (f, n, d, mout[i], exps))
+    CHUNK = 300000                     # bounded memory / pipe size in the thorough tier
+    for c0 in range(0, len(all_cases), CHUNK):
+        cases = all_cases[c0:c0 + CHUNK]
+        impl_in = "".join("%s %d %d\n" % (f, n, d) for f, n, d, cl in cases)
+        lines = impl_in.splitlines(True)
+        iout, crashed, start = [], {}, 0
+        while start < len(lines):          # a crash inside the library is a result too: locate the case, record it, go on
+            rc, o, ierr = vf.run_lines(himpl, "".join(lines[start:]), timeout=1500)
+            iout += o
+            if len(iout) >= len(lines):
+                break
+            if rc == 0 or len(crashed) >= 25:
+                chk.broke("implementation harness failed (rc=%s, %d/%d lines)" % (rc, len(iout), len(cases)), ierr)
+                return chk.finish()
+            crashed[len(iout)] = rc
+            iout.append("CRASH(rc=%s)" % rc)
+            start = len(iout)
+        iout = iout[:len(lines)]
+        mout = None
+        if drv:
+            rc, mout, merr = vf.run_lines(drv, impl_in, timeout=1500)
+            if rc != 0 or len(mout) != len(cases):
+                chk.broke("model driver failed (rc=%s, %d/%d lines)" % (rc, len(mout), len(cases)), merr)
+                mout = None
+        # 4. comparison: implementation vs oracle decides violations; implementation vs extracted model is the tie
+        for i, (f, n, d, cl) in enumerate(cases):
+            kind, nt, dt, ret = F[f]
+            exp = SPEC[kind](n, d)
+            specified = True
+            if ret is not None and not fits(exp[0], ret):
+                specified = False          # the mathematical remainder is not representable in the return type
+                nunspec += 1
+            got = norm(iout[i])
+            exps = [str(x) for x in exp]
+            dist_form[f] = dist_form.get(f, 0) + 1
+            dist_class[cl] = dist_class.get(cl, 0) + 1
+            sg = "n%s,d%s" % ("<0" if n < 0 else ("=0" if n == 0 else ">0"), "<0" if d < 0 else ">0")
+            dist_sign[sg] = dist_sign.get(sg, 0) + 1
+            chk.count((f, n, d), nontrivial=(n != 0 and abs(d) > 1 and n % d != 0) or (kind in ("exact",) and abs(d) != 1 and n != 0))
+            if (c0 + i) % 1499 == 0 or (cl == "directed" and i % 7 == 0):
+                chk.sample({"form": f, "n": str(n), "d": str(d), "class": cl, "impl": iout[i], "spec": exps if specified else "unspecified (not representable)"}, limit=16)
+            site, klass = site_of(f, n, d)
+            if specified and got != exps:
+                chk.fail_input(site, klass, {"form": f, "n": str(n), "d": str(d)}, exps, iout[i],
+                               "implementation differs from the documented convention (%s)" % kind)
+                continue                   # a failing input is reported once, not again as a correspondence break
+            if mout is not None:
+                ncorr += 1
+                mg = norm(mout[i])
+                if mg != got:
+                    chk.broke("correspondence model/implementation differs on %s n=%d d=%d: model=%s impl=%s" % (f, n, d, mout[i], iout[i]))
+                elif specified and mg != exps:
+                    chk.broke("extracted model differs from the specification oracle on %s n=%d d=%d: model=%s spec=%s" % (f, n, d, mout[i], exps))
     if len(chk.broken) > 20:
         chk.broken = chk.broken[:20] + [{"what": "... %d more" % (len(chk.broken) - 20), "detail": ""}]
     chk.cov["rule"] = ("every call form x { the box n in [-N,N], d in [-D,D]\\{0} swept completely (quick N=7, D=3; thorough N=48, D=13) } + (n, d) drawn per class: n = k d, n in {d,-d,0}, |d| = 1, multi-limb multiples, |d| > |n|, "
